@@ -606,6 +606,12 @@ static const Suite SUITES[] = {
         "sq:cap1:fie:ru4:s8193:a1:yf",
         "sq:big:rng:ru8:s1,4095,4096,4097:a1:yf",
     }},
+    {"t-quota", { "rr:quota:fie:ru4:s8193:a1:y012f", "rew1:quota:fie:ru4:s8193:a1:y012f", "rew3:quota:fie:ru4:s8193:a1:y012f", "sq:quota:fie:ru4:s8193:a1:yf" }},
+    {"t-disk", { "rec2:disk:rng:ru4:s4097:a1:y02f", "rew2:disk:fie:ru4:s4097:a1:y02f", "rew3:disk:fie:ru4:s8193:a1:y02f" }},
+    {"t-y3", { "rr:cap1:fie:ru4:s8193:a1:y0123f", "rew1:cap1:fie:ru4:s8193:a1:y0123f", "rec2:cap0:fie:ru4:s4097:a1:y23" }},
+    {"t-a2", { "rr:cap1:fie:ru8:s12288:a2:y02f", "rew1:cap1:rng:ru4:s12288:a2:y02f" }},
+    {"t-seq", { "sq:cap1:fie:ru8:s8193,12288:a2:yf", "sq:cap1:rng:ru4:s8193:a2:y3f", "sq:cap0:fie:ru4:s4097:a1:yf" }},
+    {"x-punch-eof", { "sqx:big:rng:ru4:s4095:a1:y-" }},
 };
 
 void pmc_run(const char* config) {
@@ -690,6 +696,12 @@ static const PmcConfig CFG[] = {
     // suite    tiers  sched  time   env    total
     {"conc-q",    1, {0,0}, {0,0}, {2,2}, {0,0}, "concurrent readers / reader-evictor-reader variants"},
     {"seq-q",     1, {0,0}, {0,0}, {2,2}, {0,0}, "sequential read, punch, reuse, read"},
+    {"t-quota",   2, {0,0}, {0,0}, {2,2}, {0,0}, ""},
+    {"t-disk",    2, {0,0}, {0,0}, {2,2}, {0,0}, ""},
+    {"t-y3",      2, {0,0}, {0,0}, {2,2}, {0,0}, ""},
+    {"t-a2",      2, {0,0}, {0,0}, {2,2}, {0,0}, ""},
+    {"t-seq",     2, {0,0}, {0,0}, {2,2}, {0,0}, ""},
+    {"x-punch-eof", 2, {0,0}, {0,0}, {1,1}, {0,0}, ""},
 };
 const PmcConfig* pmc_configs(int* n) { *n = sizeof CFG / sizeof CFG[0]; return CFG; }
 const char* pmc_property(void) { return "C17"; }
